@@ -9,7 +9,7 @@ namespace {
 
 static uint64_t ncases(Ctx& c) { return gdegenerate_count() / 3 + (uint64_t)c.param_int("random", c.tier == "thorough" ? 2000000 : 60000); }
 
-template <class X> void run(Ctx& c, const Str& s, unsigned mask, int opKind) {
+template <class X> void run(Ctx& c, const Str& s, unsigned mask, int opKind, int faultAt, bool faultFrom) {
     typedef typename X::Char Char; typedef typename X::Uri Uri;
     size_t e; if (!dfa_uriref(s, &e)) { c.count("skipped_invalid"); return; }
     typename X::S w = widen<X>(s);
@@ -19,7 +19,7 @@ template <class X> void run(Ctx& c, const Str& s, unsigned mask, int opKind) {
     if (build_has_sanitizer()) { text = (Char*)malloc(nbytes ? nbytes : 1); memcpy(text, w.data(), nbytes); }
     else { reg = new GuardRegion(nbytes ? nbytes : 1); text = (Char*)(c.case_index & 1 ? reg->place_start(w.data(), nbytes) : reg->place_end(w.data(), nbytes)); }
     Uri u; const Char* ep; int rc;
-    Ledger led; bool useLed = (c.case_index >> 1) & 1;
+    Ledger led; bool useLed = ((c.case_index >> 1) & 1) || faultAt > 0; led.quarantine = true; led.poison_on_free = false;
     c.stage(1);
     if (reg) reg->protect_ro();
     { LibScope ls; rc = useLed ? X::ParseSingleUriExMm(&u, text, text + w.size(), &ep, led.mgr()) : X::ParseSingleUriEx(&u, text, text + w.size(), &ep); }
@@ -30,8 +30,22 @@ template <class X> void run(Ctx& c, const Str& s, unsigned mask, int opKind) {
     Str textBefore; to_string<X>(u, &textBefore);
     // the operation, with the source text mapped read-only: a store into caller text traps
     c.stage(2);
+    if (faultAt > 0) led.arm(faultAt, faultFrom);
     { LibScope ls; if (opKind == 0) rc = useLed ? X::MakeOwnerMm(&u, led.mgr()) : X::MakeOwner(&u); else rc = useLed ? X::NormalizeSyntaxExMm(&u, mask, led.mgr()) : X::NormalizeSyntaxEx(&u, mask); }
     c.evaluations++;
+    bool faulted = faultAt > 0 && led.failed > 0; led.fail_at = 0; led.fail_from = false;
+    if (faulted) {
+        // The operation ran out of memory half way (source text still mapped read-only: a store traps). Whatever state the URI is in,
+        // caller-supplied text must neither have been written nor handed to the manager's free function, now or by the cleanup.
+        c.count("owner_op_faulted"); what += fmt(" allocation #%d%s failed", faultAt, faultFrom ? " and all later ones" : "");
+        { LibScope ls; X::FreeUriMembersMm(&u, led.mgr()); }
+        const char* lo = (const char*)text; const char* hi = lo + nbytes; const char* bp = (const char*)led.last_bad_ptr;
+        if (led.bad_free && bp >= lo && bp < hi + (nbytes ? 0 : 1)) c.violation("C12", fmt("owner/%s/caller-text-passed-to-free-after-failed-%s", X::tag(), opKind == 0 ? "makeowner" : "normalize"), what + " " + led.bad_free_note);
+        if (reg) reg->unprotect();
+        if (memcmp(text, w.data(), nbytes) != 0) c.violation("C12", fmt("owner/%s/source-text-modified", X::tag()), what);
+        led.release_all(); if (reg) delete reg; else free(text);
+        return;
+    }
     if (reg) reg->unprotect();
     if (memcmp(text, w.data(), nbytes) != 0) c.violation("C12", fmt("owner/%s/source-text-modified", X::tag()), what);
     if (rc != URI_SUCCESS) { c.violation("C12", fmt("owner/%s/operation-failed", X::tag()), what + fmt(" rc=%d", rc)); }
@@ -72,7 +86,9 @@ static void run_case(Ctx& c, uint64_t idx) {
     else { UriGenOpts o; o.auth = r.chance(3, 4); o.maxSegs = 5; s = gen_uri(r, o); }
     int opKind = (int)r.below(3) ? 1 : 0;
     unsigned mask = opKind ? (r.chance(1, 4) ? 63u : (1 + r.below(63))) : 0; if (opKind && r.chance(1, 16)) mask |= 0xFFFFFF00u;
-    if (idx % 2) run<ApiW>(c, s, mask, opKind); else run<ApiA>(c, s, mask, opKind);
+    if (opKind && r.chance(1, 12)) { static const unsigned hi[] = {0x40u, 0x80u, 0x80000000u, 0xFFFFFFC0u, 0x100u, 0x7FFFFFC0u}; mask = r.chance(1, 2) ? hi[r.below(6)] : (1u << r.range(6, 31)); }   // "any non-zero mask": also one without a single component bit
+    int faultAt = r.chance(1, 5) ? r.range(1, 14) : 0; bool faultFrom = r.coin();
+    if (idx % 2) run<ApiW>(c, s, mask, opKind, faultAt, faultFrom); else run<ApiA>(c, s, mask, opKind, faultAt, faultFrom);
     if (idx % 4000 == 3) c.sample("uri", esc(s) + fmt(" mask=0x%x", mask));
 }
 static Monitor mon = {"owner", "C12: ownership independence under scribbled / released source text; source never written", "C12", ncases, run_case, nullptr};
